@@ -19,7 +19,7 @@ theorem prog_force {s s1 s2 s3 : St} {t : Nat} {p : Pending} (h0 : s.thunks[t]? 
 /-- the invariant of a loop that may return a boolean early -/
 def retBoolInv (s s1 : St) {β} : PostCond (β × (Option Value × Unit)) PS :=
   ⟨fun (_, r) st => ⌜Safe st ∧ Le s st ∧ SzLe s1 st ∧ ∀ v, r.1 = some v → ∃ b, v = .bool b⌝,
-   fun e st => ⌜Safe st ∧ Good2 e⌝, fun _ => ⌜True⌝, ()⟩
+   fun e st => ⌜Safe st ∧ Good2 e ∧ SzLe s st⌝, fun _ => ⌜True⌝, ()⟩
 
 theorem assert_shaped {s : St} {o : Nat} {ob : Obj} {pref suff : List (Nat × Layer)} {cur : Nat × Layer}
     {p2 s2 : List (Expr × OptExpr)} {a : Expr × OptExpr} (hS : Safe s) (hob : s.objs[o]? = some ob)
@@ -42,7 +42,7 @@ theorem zip_split_right {α β} {l1 : List α} {l2 : List β} {pref suff : List 
 
 def retBoolInv2 (s s1 : St) {β} : PostCond (β × (Option Value × Bool)) PS :=
   ⟨fun (_, r) st => ⌜Safe st ∧ Le s st ∧ SzLe s1 st ∧ ∀ v, r.1 = some v → ∃ b, v = .bool b⌝,
-   fun e st => ⌜Safe st ∧ Good2 e⌝, fun _ => ⌜True⌝, ()⟩
+   fun e st => ⌜Safe st ∧ Good2 e ∧ SzLe s st⌝, fun _ => ⌜True⌝, ()⟩
 
 macro "vcprep4" : tactic => `(tactic|
   ((try intros); (try simp only [retBoolInv, retBoolInv2] at *); vcprep3))
@@ -103,11 +103,10 @@ macro "wcase" : tactic => `(tactic|
      | s3close
      | (have hm1 := zip_split_left (by assumption); have hm2 := zip_split_right (by assumption); lclose)))
 
-set_option maxHeartbeats 1000000 in
-theorem step_walk2 (s : St) (t : Task) (hS : Safe s) (hT : TaskOk2 s t)
-    (ht : match t with | .deep .. | .manifest .. | .equals .. | .compare .. => True | _ => False) :
-    ⦃fun st => ⌜st = s⌝⦄ step cfg rec t
-      ⦃Q2 s (fun v st => ValOk st.thunks.size st.objs.size st.funcs.size v ∧ ResKind t v)⦄ := by
+set_option maxHeartbeats 2000000 in
+theorem step_deep2 (s : St) (v : Value) (d : Nat) (hS : Safe s) (hT : TaskOk2 s (.deep v d)) :
+    ⦃fun st => ⌜st = s⌝⦄ step cfg rec (.deep v d)
+      ⦃Q2 s (fun v st => ValOk st.thunks.size st.objs.size st.funcs.size v ∧ ResKind (.deep v d) v)⦄ := by
   have g1 := getThunk_spec2
   have g2 := checkDepth_spec2
   have g3 := fieldThunk_spec2
@@ -117,14 +116,22 @@ theorem step_walk2 (s : St) (t : Task) (hS : Safe s) (hT : TaskOk2 s t)
   have h8 := compareLists_spec2 cfg rec hrec
   have hr := rec_spec2 rec hrec
   qstart2
-  cases t with
-  | deep v d => wcase
-  | manifest v d c => wcase
-  | equals a b d => wcase
-  | compare a b d => wcase
-  | force => exact ht.elim
-  | asserts => exact ht.elim
-  | eval => exact ht.elim
+  wcase
+
+set_option maxHeartbeats 2000000 in
+theorem step_manifest2 (s : St) (v : Value) (d : Nat) (c : Bool) (hS : Safe s) (hT : TaskOk2 s (.manifest v d c)) :
+    ⦃fun st => ⌜st = s⌝⦄ step cfg rec (.manifest v d c)
+      ⦃Q2 s (fun v st => ValOk st.thunks.size st.objs.size st.funcs.size v ∧ ResKind (.manifest v d c) v)⦄ := by
+  have g1 := getThunk_spec2
+  have g2 := checkDepth_spec2
+  have g3 := fieldThunk_spec2
+  have g4 := getObj_spec2
+  have g5 := numText_spec2
+  have h1 := recStr_spec2 rec hrec
+  have h8 := compareLists_spec2 cfg rec hrec
+  have hr := rec_spec2 rec hrec
+  qstart2
+  wcase
 
 end
 end Rsj.Eval.Safe
